@@ -336,7 +336,8 @@ def oracle(case, obs):
         immediate = MODES[th['mode']][1][0]
         performed, parked[i] = parked[i], (payload if kind == 'call' else None)
         if performed is not None:
-            if performed[0] == 'commit' and not committed[i]: commit_point(i, si, prev_db, db)
+            if performed[0] == 'commit' and not committed[i] and all(db.get(o) == v for o, v in wrote[i].items()):
+                commit_point(i, si, prev_db, db)       # the COMMIT call went through (a refused one is seen at the session's end)
             elif performed[0] in ('rollback', 'close'): stable[i] = {}        # the transaction is over: the lock is released
         if kind == 'action':
             j, v = payload
